@@ -1268,6 +1268,16 @@ func toString(v interface{}) string {
 	return formatWithoutAddresses(v)
 }
 
+// mapEntry returns the value stored under a key obtained from MapKeys; a NaN key
+// cannot be looked up again (MapIndex yields the zero Value), in which case nil is returned
+func mapEntry(m reflect.Value, key reflect.Value) interface{} {
+	v := m.MapIndex(key)
+	if !v.IsValid() || !v.CanInterface() {
+		return nil
+	}
+	return v.Interface()
+}
+
 // isNilPointer reports whether v is a nil pointer wrapped in an interface
 func isNilPointer(v interface{}) bool {
 	rv := reflect.ValueOf(v)
@@ -1450,7 +1460,7 @@ func (e *CoreExtension) filterFirst(value interface{}, args ...interface{}) (int
 	case reflect.Map:
 		// The first entry in the (sorted) order a for loop visits the map in
 		for _, key := range sortedMapKeys(rv) {
-			return rv.MapIndex(key).Interface(), nil
+			return mapEntry(rv, key), nil
 		}
 		return nil, nil
 	}
@@ -1724,13 +1734,13 @@ func (e *CoreExtension) filterMerge(value interface{}, args ...interface{}) (int
 		if !sameType {
 			generic := make(map[string]interface{}, rv.Len())
 			for _, key := range rv.MapKeys() {
-				generic[toString(key.Interface())] = rv.MapIndex(key).Interface()
+				generic[toString(key.Interface())] = mapEntry(rv, key)
 			}
 			for _, arg := range args {
 				argRv := reflect.ValueOf(arg)
 				if argRv.Kind() == reflect.Map {
 					for _, key := range argRv.MapKeys() {
-						generic[toString(key.Interface())] = argRv.MapIndex(key).Interface()
+						generic[toString(key.Interface())] = mapEntry(argRv, key)
 					}
 				}
 			}
@@ -2181,7 +2191,7 @@ func (e *CoreExtension) functionMerge(args ...interface{}) (interface{}, error) 
 			baseRv := reflect.ValueOf(base)
 			for _, key := range baseRv.MapKeys() {
 				keyStr := toString(key.Interface())
-				result[keyStr] = baseRv.MapIndex(key).Interface()
+				result[keyStr] = mapEntry(baseRv, key)
 			}
 		}
 
@@ -2198,7 +2208,7 @@ func (e *CoreExtension) functionMerge(args ...interface{}) (interface{}, error) 
 				if argRv.Kind() == reflect.Map {
 					for _, key := range argRv.MapKeys() {
 						keyStr := toString(key.Interface())
-						result[keyStr] = argRv.MapIndex(key).Interface()
+						result[keyStr] = mapEntry(argRv, key)
 					}
 				}
 			}
